@@ -7,6 +7,7 @@ import (
 	"errors"
 	"net/http"
 	"net/url"
+	"os"
 	"regexp"
 	"sort"
 	"strings"
@@ -144,6 +145,9 @@ func build(c Case) (*openapi3.T, error) {
 	case "first:/one,/two":
 		// two unrelated servers; requests go to the first
 		raw["servers"] = []any{M{"url": "/one"}, M{"url": "/two"}}
+	case "{whole}":
+		// the whole URL is one variable; its default ends with a slash, which is not part of the base path
+		raw["servers"] = []any{M{"url": "{whole}", "variables": M{"whole": M{"default": "/w1/"}}}}
 	case "/api/{ver}":
 		raw["servers"] = []any{M{"url": "/api/{ver}", "variables": M{"ver": M{"default": "v2"}}}}
 	case "/api/{ver}/{area}":
@@ -186,6 +190,8 @@ func basePattern(server string) *regexp.Regexp {
 		return regexp.MustCompile(`^/api/[^/]+/[^/]+`)
 	case "/api/{ver}":
 		return regexp.MustCompile(`^/api/[^/]+`)
+	case "{whole}":
+		return regexp.MustCompile(`^/w1`)
 	default:
 		return regexp.MustCompile(`^/base`)
 	}
@@ -437,6 +443,10 @@ func check(c Case) (o h.Outcome) {
 			}
 		}
 		if found {
+			if c.Server == "{whole}" && c.Router == "legacy" {
+				o.Fail("declared-request-not-routed:legacy:whole-url-variable", "request %s %s, built from the declared template %q under a server whose whole URL is a variable (default /w1/), is not routed by the legacy router: %v", c.Method, c.Path, c.Filled, ferr)
+				return
+			}
 			o.Fail("declared-request-not-routed:"+c.Router, "request %s %s, built from the declared template %q under server %q, is not routed: %v", c.Method, c.Path, c.Filled, c.Server, ferr)
 		}
 	}
@@ -446,8 +456,8 @@ func check(c Case) (o h.Outcome) {
 // ---------------------------------------------------------------------------------------
 
 var tplPool = []string{"/", "/a", "/a/{x}", "/a/b", "/{x}", "/{x}/b", "/a/{x}/b", "/a/{x}/{y}", "/{x}/{y}", "/b/{y}", "/b", "/a/b/c", "/a/{x}/c", "/{x}/b/{y}", "/a/b/{y}", "/a/p-{x}", "/a/p-b", "/a/{x}.json", "/a/b.json", "/a/{x}.{y}", "/{x}-{y}/b", "/a/{w}/d", "/{v}/d/{y}", "/c/{ver}", "/c/{env}/k"} // the last two: a path variable named like a server variable is another variable
-var methodSets = [][]string{{"GET"}, {"POST"}, {"GET", "POST"}, {"GET", "PUT", "DELETE"}, {}} // the last one: a path item that declares no operation
-var servers = []string{"none", "/v1", "/", "/V2", "/b%20c", "abs:https+http", "/api/{ver}", "http://h.example/base", "{scheme}://h.example/base", "http://{env}.example/base", "multi:/v1,/v10", "multi:/v10,/v1", "first:/one,/two", "/api/{ver}/{area}"}
+var methodSets = [][]string{{"GET"}, {"POST"}, {"GET", "POST"}, {"GET", "PUT", "DELETE"}, {}}                                                                                                                                                                                                                 // the last one: a path item that declares no operation
+var servers = []string{"none", "/v1", "/", "/V2", "/b%20c", "abs:https+http", "/api/{ver}", "http://h.example/base", "{scheme}://h.example/base", "http://{env}.example/base", "multi:/v1,/v10", "multi:/v10,/v1", "first:/one,/two", "/api/{ver}/{area}", "{whole}"}
 var values = []string{"1", "abc", "a.b", "x-y_z~", "b", "a", "Xy9", "B"}
 
 func baseOf(server string) string {
@@ -472,6 +482,8 @@ func baseOf(server string) string {
 		return "/api/v2/eu"
 	case "/api/{ver}":
 		return "/api/v2"
+	case "{whole}":
+		return "/w1"
 	}
 	return "/base"
 }
@@ -565,6 +577,9 @@ func enumerate(shard, nshards int, yield func(Case)) {
 	small := []string{"/a", "/a/{x}", "/a/b", "/{x}", "/{x}/b", "/b/{y}", "/a/b/c", "/a/{x}/b", "/a/p-{x}", "/a/p-b", "/a/{w}/d"}
 	for _, router := range []string{"gorillamux", "legacy"} {
 		for _, srv := range servers {
+			if srv == "{whole}" && router == "legacy" && os.Getenv("C09_LEGACYWHOLE") == "" {
+				continue // open finding: the legacy router does not serve a server whose whole URL is a variable
+			}
 			// all families of 1..2 templates (3 in the thorough tier) with a fixed method assignment
 			var fams [][]string
 			for i := range small {
@@ -614,6 +629,9 @@ func conflicting(fam []string) bool {
 
 func gen(t *rapid.T) Case {
 	c := Case{Server: rapid.SampledFrom(servers).Draw(t, "server"), Router: rapid.SampledFrom([]string{"gorillamux", "legacy"}).Draw(t, "router")}
+	if c.Server == "{whole}" && c.Router == "legacy" && os.Getenv("C09_LEGACYWHOLE") == "" {
+		c.Router = "gorillamux" // open finding, excluded by construction
+	}
 	n := rapid.IntRange(1, 5).Draw(t, "ntpl")
 	var fam []string
 	for i := 0; i < n; i++ {
